@@ -15,6 +15,7 @@ package main
 import (
 	"go/ast"
 	"go/token"
+	"go/types"
 	"strings"
 )
 
@@ -57,7 +58,32 @@ func (v *FnV) writeCheck(st *State, ref string, what string) {
 	}
 	var node ast.Node = posNode(v.curPos)
 	s2 := st.fork()
-	v.oblige(s2, "nowrite:"+what, node, 0, sGt(ref, "alloc!0"), "store targets an object allocated in this activation ("+what+")")
+	cond := sGt(ref, "alloc!0")
+	// cells named in a `modifies *p` clause are the function's declared effect
+	if len(v.frames) > 0 {
+		sig := v.frames[0].sig
+		for _, p := range modifiedParams(v.fc.Extra["writes"]) {
+			var pv *types.Var
+			if sig.Recv() != nil && sig.Recv().Name() == p {
+				pv = sig.Recv()
+			}
+			for i := 0; i < sig.Params().Len(); i++ {
+				if sig.Params().At(i).Name() == p {
+					pv = sig.Params().At(i)
+				}
+			}
+			if pv == nil {
+				continue
+			}
+			if ev, ok := v.entry.env[pv]; ok {
+				if ev.S == ref {
+					return
+				}
+				cond = sOr(cond, sEq(ref, ev.S))
+			}
+		}
+	}
+	v.oblige(s2, "nowrite:"+what, node, 0, cond, "store targets an object allocated in this activation or a cell listed in modifies ("+what+")")
 	// execution continues: the store itself is still performed in the model
 }
 
@@ -83,6 +109,14 @@ func (v *FnV) appendCheck(st *State, base Value) {
 func (v *FnV) callWriteCheck(st *State, call *ast.CallExpr, what string, ok bool) {
 	if !v.nowriteOn || st == nil || st.dead || ok {
 		return
+	}
+	// `effects <callee...>`: the calls that ARE the function's declared effect
+	for _, l := range v.fc.Extra["effects"] {
+		for _, name := range strings.Fields(l) {
+			if what == name || strings.HasSuffix(what, "."+name) {
+				return
+			}
+		}
 	}
 	cond := "false"
 	v.oblige(st.fork(), "nowrite:call", call, v.fr().ord[call], cond, "call to "+what+" which is neither pure nor under a nowrite contract")
